@@ -360,3 +360,85 @@ func TestC13Random(t *testing.T) {
 		return c
 	}, judgeRoute)
 }
+
+// Volume: thousands of rejected requests, with hundreds of distinct tokens, on the routes of every service of one
+// router - every single one is answered 401, also the first ones when they are presented again at the end and
+// after a genuine token has been accepted in between.
+type volumeCase struct {
+	N      int `json:"n"`      // rejected requests per service
+	Tokens int `json:"tokens"` // distinct bad tokens in rotation
+}
+
+func judgeVolume(c volumeCase) *h.Verdict {
+	v := &h.Verdict{NonTrivial: true}
+	v.Label("rejections>=4500-per-service")
+	cfg := stackenv.BaseConfig(env.FM.URL(), env.RfPort, env.AbmfPort, env.PemFile, env.KeyFile)
+	cfg.Configuration.ServiceNameList = services
+	verifapi.Init(cfg)
+	verifapi.SetOAuth(true, nrfPem)
+	engine, err := verifapi.NewEngine()
+	if err != nil {
+		return v.Failf("HARNESS-router", "%v", err)
+	}
+	bySvc := map[string][]gin.RouteInfo{}
+	for _, rt := range engine.Routes() {
+		for s, p := range prefixes {
+			if strings.HasPrefix(rt.Path, p+"/") || rt.Path == p {
+				bySvc[s] = append(bySvc[s], rt)
+			}
+		}
+	}
+	token := func(svc string, i int) string {
+		switch i % 4 {
+		case 0:
+			return fmt.Sprintf("Bearer garbage-%d", i)
+		case 1:
+			return "Bearer " + sign(jwt.SigningMethodRS512, otherKey, svc, time.Unix(2000000000+int64(i), 0))
+		case 2:
+			return fmt.Sprintf("Bearer eyJhbGciOiJSUzUxMiJ9.e30.%d", i)
+		}
+		return fmt.Sprintf("Basic %d", i)
+	}
+	probe := func(svc string, k, ti int) (int, string) {
+		rts := bySvc[svc]
+		rt := rts[k%len(rts)]
+		req := httptest.NewRequest(rt.Method, substitute(rt.Path, []string{"x"}, 0), bytes.NewReader(nil))
+		req.Header.Set("Authorization", token(svc, ti))
+		rec := httptest.NewRecorder()
+		engine.ServeHTTP(rec, req)
+		return rec.Code, rt.Method + " " + rt.Path
+	}
+	for _, svc := range services {
+		if len(bySvc[svc]) == 0 {
+			return v.Failf("service-without-routes", "service %s has no route", svc)
+		}
+		for k := 0; k < c.N; k++ {
+			if code, what := probe(svc, k, k%c.Tokens); code != 401 {
+				return v.Failf("not-401/after-many-rejections", "rejected request number %d of service %s (%s, token %d of %d in rotation) answered %d", k+1, svc, what, k%c.Tokens, c.Tokens, code)
+			}
+		}
+		// a genuine token is accepted ...
+		rt := bySvc[svc][0]
+		req := httptest.NewRequest(rt.Method, substitute(rt.Path, []string{"x"}, 0), bytes.NewReader(nil))
+		req.Header.Set("Authorization", "Bearer "+sign(jwt.SigningMethodRS512, nrfKey, svc, fixedExp))
+		rec := httptest.NewRecorder()
+		engine.ServeHTTP(rec, req)
+		if rec.Code == 401 {
+			return v.Failf("control-valid-token-rejected", "after %d rejections a genuine token is answered 401 on %s %s", c.N, rt.Method, rt.Path)
+		}
+		// ... and the bad tokens, the earliest included, are still rejected
+		for ti := 0; ti < c.Tokens; ti++ {
+			if code, what := probe(svc, ti, ti); code != 401 {
+				return v.Failf("not-401/bad-token-presented-again", "bad token %d of service %s, rejected before, answered %d on %s when presented again after %d other tokens and a genuine one", ti, svc, code, what, c.Tokens)
+			}
+		}
+	}
+	env.Notifications()
+	return v
+}
+
+func TestC13Volume(t *testing.T) {
+	h.Run(t, "C13", "volume", func(t *rapid.T) volumeCase {
+		return volumeCase{N: rapid.IntRange(4500, h.Scale(6000, 40000)).Draw(t, "n"), Tokens: rapid.SampledFrom([]int{300, 600, 700, 1100}).Draw(t, "tokens")}
+	}, judgeVolume)
+}
